@@ -463,4 +463,16 @@ theorem C08_hosted_stop_is_eof (c : Cfg) :
   · cases hf : s.core.fin.isSome <;> cases hl : s.core.dl.isLinked <;> cases ht : c.tou <;>
       simp_all [VHostedIO.step, VHosted.step]
 
+/-! ### hosted event downlink (no replica; present for the builder coverage) -/
+
+/-- **Hosted event downlink, both settings:** whatever happened before, on a live channel `on_event v` fires for an event
+exactly when the link is synced or `events_when_not_synced` is set, `synced` fires `on_synced` once, `unlinked` fires
+`on_unlinked` and finishes the channel exactly when `terminate_on_unlinked` is set; nothing else is ever called. -/
+theorem C08_hosted_event_callbacks (c : Cfg) (s : VHostedIO) (hf : s.core.fin.isSome = false) :
+    (∀ b, (EHostedIO.step c s (.op (.note (.ev b)))).2 = if s.core.dl = .synced || c.ews then [.event b] else []) ∧
+    (EHostedIO.step c s (.op (.note .synced))).2 = [.syncedU] ∧
+    (EHostedIO.step c s (.op (.note .unlinked))).2 = [.unlinked] ∧
+    ((EHostedIO.step c s (.op (.note .unlinked))).1.core.fin.isSome = c.tou) := by
+  cases ht : c.tou <;> simp [EHostedIO.step, ehNext, hf, ht]
+
 end SwimVerif.Dl
